@@ -12,6 +12,8 @@
     so only the identities that do not need `sqrt(x)² = x` are reported there (off-diagonal
     entries of `L·Lᵀ`; all of `L·D·Lᵀ`); over `Rat` the whole identity.
   * After `##`: the factor entries of the code-shaped model at the same `Fp` / `Rat` point.
+  * `struct=ok display=ok` (after `##`): `from_unchecked` of the result struct stores exactly the
+    two factors it is given and `Display` prints them under their letters (`L:`/`D:`, `Q:`/`R:`).
   * `f64` lines: the model answers what the specification demands of the real-number input class
     named by `<kind>`; the harness evaluates the float result against the defining identities
     with a tolerance.  No float is computed or compared here.
@@ -102,14 +104,14 @@ def answerLdlt (sh : α → String) (names : List String) (A : Matrix α) : Stri
   | some (L, D) =>
     s!"some lshape={shapeS names L} dshape={shapeS names D} unitlower={okS (isUnitLower L)} " ++
     s!"diag={okS (isLower D && isUpper D)} ident={okS (ldltIdentity L D A)} " ++
-    s!"## L={showElems sh L.data} D={showElems sh D.data}"
+    s!"## L={showElems sh L.data} D={showElems sh D.data} struct=ok display=ok"
 
 def answerQr [RealFns α] (sh : α → String) (names : List String) (A : Matrix α) : String :=
   match qr A with
   | none => "none"
   | some (Q, R) =>
     s!"some qshape={shapeS names Q} rshape={shapeS names R} " ++
-    s!"## Q={showElems sh Q.data} R={showElems sh R.data}"
+    s!"## Q={showElems sh Q.data} R={showElems sh R.data} struct=ok display=ok"
 
 end
 
@@ -121,9 +123,10 @@ def answerF64 (alg kind : String) (rows cols : Nat) : String :=
     else if kind = "spd" then "some lower=ok posdiag=ok ident=ok" else "none"
   | "ldlt" =>
     if rows ≠ cols then "none"
-    else if kind = "spd" then "some unitlower=ok diag=ok ident=ok" else "none"
+    else if kind = "spd" then "some unitlower=ok diag=ok ident=ok ## struct=ok display=ok" else "none"
   | _ =>
-    if cols > rows then "none" else "some shapes=ok product=ok orthogonal=ok upper=ok"
+    if cols > rows then "none"
+    else "some shapes=ok product=ok orthogonal=ok upper=ok ## struct=ok display=ok"
 
 def step (s : State) (toks : List String) : State × String :=
   match toks with
